@@ -4,7 +4,7 @@ From Coq Require Import Permutation.
 Open Scope N_scope.
 
 (* a restore keeps exactly the pending timers *)
-Lemma sp_restore_keeps srids s : sp_pending (snd (sp_step srids Restore s)) = sp_pending s.
+Lemma sp_restore_keeps srids out s : sp_pending (snd (sp_step srids Restore out s)) = sp_pending s.
 Proof. reflexivity. Qed.
 
 (* a timer at or before the watermark is ignored *)
@@ -59,4 +59,33 @@ Proof.
   - intros x. unfold due. rewrite filter_In. unfold is_due. rewrite Z.leb_le. tauto.
   - intros x Hx Hin. apply Hafter in Hin. apply filter_In in Hx as [_ Hc]. unfold is_due in Hc. apply Z.leb_le in Hc. lia.
   - intros x Hx Hc. apply M. left. apply filter_In. split; auto. unfold is_due. apply negb_true_iff, Z.leb_gt. exact Hc.
+Qed.
+
+(* a consumer that stops: what it was handed is not pending any more - it can never be handed out again -, every other
+   pending timer is still pending, nothing else appears except what the consumer itself registered *)
+Lemma sp_advance_partial_facts sender wm during out s :
+  NoDup (sp_pending s) ->
+  let s' := snd (sp_advance_partial sender wm during out s) in
+  sp_wm s' = ups_min (ups_set sender wm (sp_ups s)) /\
+  NoDup (sp_pending s') /\
+  (forall x, In x out -> In x (sp_pending s') -> exists a k t, In (a, k, t) during /\ (sp_wm s' < t)%Z /\ x = (k, t)) /\
+  (forall x, In x (sp_pending s) -> ~ In x out -> In x (sp_pending s')) /\
+  (forall x, In x (sp_pending s') -> In x (sp_pending s) \/ exists a k t, In (a, k, t) during /\ x = (k, t)).
+Proof.
+  intros Hn. unfold sp_advance_partial. cbn [fst snd sp_wm sp_pending].
+  set (cw := ups_min (ups_set sender wm (sp_ups s))).
+  destruct (during_fold_spec cw (length out) during (removed out (sp_pending s)) (NoDup_filter _ Hn)) as [Hn' M].
+  assert (Hrem : forall x, In x (removed out (sp_pending s)) <-> In x (sp_pending s) /\ ~ In x out).
+  { intros x. unfold removed. rewrite filter_In, negb_true_iff. split.
+    - intros [Hx Hc]. split; auto. intros Hi. apply existsb_fired in Hi. congruence.
+    - intros [Hx Hc]. split; auto. destruct (existsb (fired_eqb x) out) eqn:Ee; auto.
+      apply existsb_fired in Ee. contradiction. }
+  split; [reflexivity|]. split; [exact Hn'|]. split; [|split].
+  - intros x Hx Hp. apply M in Hp as [Hp|(a & k & t & Hin & _ & Hw & ->)].
+    + apply Hrem in Hp. tauto.
+    + exists a, k, t. auto.
+  - intros x Hx Hnx. apply M. left. apply Hrem. auto.
+  - intros x Hx. apply M in Hx as [Hx|(a & k & t & Hin & _ & _ & ->)].
+    + left. apply Hrem in Hx. tauto.
+    + right. exists a, k, t. auto.
 Qed.
